@@ -214,6 +214,7 @@ def gen_cpp(target, ent, info, pre, oracle, max_n, repo, gen, sanitize):
     is_ctor = '__ctor' in target
     method = ent['name']
     loops, decls, args, clause_params, descr = [], [], [], [], []
+    graph_param = None
     for t, n in params:
         if n == 'this':
             continue
@@ -238,6 +239,10 @@ def gen_cpp(target, ent, info, pre, oracle, max_n, repo, gen, sanitize):
             decls.append('%s %s_real = mk_label<%s>(%s_k); %s %s_abs = abs_label(%s_real); const %s *%s = &%s_abs;' % (
                 info['cpplabel'], n, info['cpplabel'], n, info['abslabel'], n, n, info['abslabel'], n, n))
             args.append('%s_real' % n)
+        elif is_ctor and re.match(r'^struct (LDG|LUG)_\w+ \*$', tt) and classify(tt[len('struct '):-2] + '__x') and graph_param is None:
+            graph_param = (n, classify(tt[len('struct '):-2] + '__x'))
+            args.append('g0')
+            continue
         else:
             return None
         clause_params.append(n)
@@ -261,6 +266,9 @@ def gen_cpp(target, ent, info, pre, oracle, max_n, repo, gen, sanitize):
     L.append('#include "native.hpp"')
     L.append('#include "view.h"')
     L.append('typedef %s G;' % info['graph'])
+    if graph_param:
+        L.append('typedef %s PG;' % graph_param[1]['graph'])
+        L.append('typedef %s PAbs;' % graph_param[1]['abs'])
     L.append('typedef %s Abs;' % info['abs'])
     L.append('typedef %s L;' % info['cpplabel'])
     L.append('#undef OLD')
@@ -272,11 +280,15 @@ def gen_cpp(target, ent, info, pre, oracle, max_n, repo, gen, sanitize):
     L.append('  long calls = 0;')
     L.append('  int rc = 0;')
     L.append('  bg_install_handlers();')
-    L.append('  enumerate_graphs<G, L>(maxN, %d, %s, [&](const G &g0, const std::string &history) {' % (
-        2 if max_n <= 3 else 1, 'true' if info['undirected'] else 'false'))
+    if graph_param:
+        L.append('  enumerate_graphs<PG, %s>(maxN, %d, %s, [&](const PG &g0, const std::string &history) {' % (
+            graph_param[1]['cpplabel'], 2 if max_n <= 3 else 1, 'true' if graph_param[1]['undirected'] else 'false'))
+    else:
+        L.append('  enumerate_graphs<G, L>(maxN, %d, %s, [&](const G &g0, const std::string &history) {' % (
+            2 if max_n <= 3 else 1, 'true' if info['undirected'] else 'false'))
     L.append('    if (rc) return;')
     L.append('    const int N = (int)g0.getSize();')
-    if is_ctor:
+    if is_ctor and not graph_param:
         L.append('    if (N != 0 || g0.getEdgeNumber() != 0) return;')
     for lp in loops:
         L.append('    ' + lp)
@@ -286,7 +298,12 @@ def gen_cpp(target, ent, info, pre, oracle, max_n, repo, gen, sanitize):
         L.append('      ' + d)
     L.append('      G_P = p; G_Q = q; bg_exc = 0;')
     L.append('      bg_scratch_row.valid = 0; bg_scratch_row.owner = 0; bg_cur_adj = 0; bg_ghost_frontier.a = 0;')
-    L.append('      G g = g0;')
+    if graph_param:
+        L.append('      G g(0);')
+        L.append('      PAbs %s_abs; Cells<%s> %s_cells; alpha(g0, %s_abs, %s_cells); const PAbs *%s = &%s_abs;' % (
+            graph_param[0], graph_param[1]['abslabel'], graph_param[0], graph_param[0], graph_param[0], graph_param[0], graph_param[0]))
+    else:
+        L.append('      G g = g0;')
     L.append('      Abs pre_abs; Cells<%s> pre_cells; alpha(g, pre_abs, pre_cells);' % info['abslabel'])
     L.append('      Abs *bg_self = &pre_abs; Abs *bg_old_self = &pre_abs;')
     if not is_ctor:
